@@ -71,6 +71,7 @@ def models(wd, tier, seed):
 
 FAM = dict(driver="conc", specdirs=["conc", "lib"], monitor="ConcQueuePTrace", property_of=PROPERTY_OF, models=models,
            n_random={"quick": 5000, "thorough": 250000},
+           modes={"quick": [("burst", "burst", 3000, 4)], "thorough": [("burst", "burst", 100000, 4)]},
            x_specs=["conc/ConcQueue.tla"], p_monitor="conc/ConcQueueP.tla",
            assumptions=["ConcQueueP encodes the statement as read in its header (I1-I5): enqueue order = real-time order of Enqueue calls; "
                         "pairs of an unlimited queue unconstrained; no deadline for starting a job while others run; "
